@@ -319,18 +319,18 @@ def obligations(tier):
       Ob('lifted_equals_plain', lifted_equals_plain,
          dict(t=I(0, NT - 1), mi=I(0, 6 if quick else nmut),
               li=I(1, 6 if quick else nmut), sel=I(0, 2), a=I(-3, 3),
-              b=I(-3, 3), x=I(-3, 3), n=I(1, 1 if quick else 2), k0=kind, c0=col,
+              b=I(-3, 3), x=I(-3, 3), n=I(1, 1), k0=kind, c0=col,
               n0=nm, h0=B() if not quick else I(0, 0),
-              k1=kind if not quick else I(0, 0),
-              c1=col if not quick else I(0, 0), n1=nm if not quick else I(0, 0),
-              h1=B() if not quick else I(0, 0)),
+              k1=I(0, 0),
+              c1=I(0, 0), n1=I(0, 0),
+              h1=I(0, 0)),
          split=('t', 'mi', 'li') if quick else ('t', 'mi', 'li', 'k0'),
          timeout=900, funcs=F,
          bounds='5 transforms x %d mutable forms x %d lifting-filter forms x '
                 'programs of %s ops (7 kinds x 3 collections x 2 names%s), '
                 'predicate / index 0..2' % (
                     7 if quick else nmut + 1, 6 if quick else nmut,
-                    '1' if quick else '<=2', '' if quick else ' x root/child')),
+                    '1', '' if quick else ' x root/child')),
       Ob('lifted_while_loop', lifted_while,
          dict(mi=I(1, nmut), a=I(-3, 3), b=I(-3, 3), init=I(-2, 2), limit=I(-2, 5),
               split=B()), split=('mi',), timeout=600, funcs=F,
